@@ -1,40 +1,284 @@
 """C07 - ConstraintKMeans produces clusters of equal size.
 
-What is proved here is the quota bookkeeping around the association step and the driver; the association step itself
-(_constraint_association_distance / _gain: three nested loops over argsort orders, randomised swaps) is an ASSUMED contract
-whose size postcondition is exercised by the bounded stand-in."""
+Proved: the association of strategy 'distance' (_constraint_association_distance with its three nested loops, _randomize_index,
+_switch_clusters) gives every cluster floor(n/k) or floor(n/k)+1 points - counting invariants over the ghost functions cnt / sumI -
+and the property is carried by contracts through the dispatcher, constraint_predictions, constraint_kmeans (best labels),
+ConstraintKMeans.fit (labels_) and ConstraintKMeans.predict (balanced predictions).  The association of strategy 'gain' is an
+ASSUMED contract without any size claim (known finding); the bounded stand-in exercises both."""
 import z3
 from pyvc.api import Contract, contract
 from pyvc.values import Obj, NdArr, z
-from pyvc import models
+from pyvc import models, counting, permmodel
 
 K = "mlinsights/mlmodel/_kmeans_constraint_.py"
 C = "mlinsights/mlmodel/kmeans_constraint.py"
 
 
-@contract(K + "::_constraint_association", "C07", assumed=True)
-class Association(Contract):
-    """ASSUMED: fills labels (every point in exactly one of the k clusters) and distances_close; the quota it is given must be the
-    arithmetic of the size constraint - that part is an obligation at every call site"""
+# ----------------------------------------------------------------------------------------------------------------------
+# the association of strategy 'distance': proved (counting invariants over ghost cnt / sumI, pyvc/counting.py)
+def _fa(n, body, name="p"):
+    i = z3.Int(models.fresh_name(name))
+    return z3.ForAll([i], z3.Implies(z3.And(i >= 0, i < z(n)), body(i)))
+
+
+def _between(arr, lo, hi, n=None):
+    return _fa(n if n is not None else arr.shape[0], lambda i: z3.And(arr.get(i) >= z(lo), arr.get(i) < z(hi)))
+
+
+def _cnt_is(arr, n, fn):
+    """forall q. cnt(arr, q, n) == fn(q)"""
+    q = z3.Int(models.fresh_name("q"))
+    return z3.ForAll([q], counting.cnt(arr, q, n) == fn(q), patterns=[counting.cnt(arr, q, n)])
+
+
+def _sizes(labels, n, k, lim):
+    """THE PROPERTY: every cluster 0..k-1 holds floor(n/k) or floor(n/k)+1 of the n labels"""
+    q = z3.Int(models.fresh_name("q"))
+    return z3.ForAll([q], z3.Implies(z3.And(q >= 0, q < z(k)), z3.And(counting.cnt(labels, q, n) >= z(lim), counting.cnt(labels, q, n) <= z(lim) + 1)),
+                     patterns=[counting.cnt(labels, q, n)])
+
+
+def _balanced(labels, n, k, lim):
+    """the property as stated: lim is floor(n/k) and every cluster holds lim or lim+1 of the n points"""
+    n, k, lim = z(n), z(k), z(lim)
+    return {"the_quota_is_floor_of_n_over_k": z3.And(lim * k <= n, n < (lim + 1) * k),
+            "every_point_gets_a_cluster": _between(labels, 0, k),
+            "every_cluster_has_floor_or_ceil_of_n_over_k_points": _sizes(labels, n, k, lim)}
+
+
+def _quota(a):
+    n, k = z(a.X.shape[0]), z(a.centers.shape[0])
+    lim, lo = z(a.limit), z(a.leftover)
+    return {"quota_is_floor_of_n_over_k": z3.And(k >= 1, lim * k <= n, n < (lim + 1) * k),
+            "leftover_is_n_minus_k_times_quota": z3.And(lo == n - lim * k, lo >= 0, lo < k),
+            "one_counter_and_flag_per_cluster": z3.And(z(a.counters.shape[0]) == k, z(a.leftclose.shape[0]) == k),
+            "one_label_and_distance_per_point": z3.And(z(a.labels.shape[0]) == n, z(a.distances_close.shape[0]) == n),
+            "centres_have_the_data_dimension": z(a.centers.shape[1]) == z(a.X.shape[1])}
+
+
+@contract(K + "::_randomize_index", "C07")
+class Randomize(Contract):
+    """swaps neighbours of a permutation: it stays a permutation (range and injectivity)"""
+
+    def setup(self, E, v):
+        n = E.size("n", 1)
+        return dict(index=E.nd("index", (n,), "int"), weights=E.nd("weights", (n,)))
 
     def requires(self, E, a):
-        n, k = z(a.X.shape[0]), z(a.centers.shape[0])
-        lim, lo = z(a.limit), z(a.leftover)
-        return {"quota_is_floor_of_n_over_k": z3.And(k >= 1, lim * k <= n, n < (lim + 1) * k),
-                "leftover_is_n_minus_k_times_quota": z3.And(lo == n - lim * k, lo >= 0, lo < k),
-                "one_counter_and_flag_per_cluster": z3.And(z(a.counters.shape[0]) == k, z(a.leftclose.shape[0]) == k),
-                "one_label_and_distance_per_point": z3.And(z(a.labels.shape[0]) == n, z(a.distances_close.shape[0]) == n),
-                "centres_have_the_data_dimension": z(a.centers.shape[1]) == z(a.X.shape[1])}
+        r, i = permmodel.is_perm_facts(a.index)
+        return {"index_in_range": r, "index_injective": i, "one_weight_per_index": z3.And(z(a.weights.shape[0]) == z(a.index.shape[0]), z(a.index.shape[0]) >= 1)}
+
+    @staticmethod
+    def _inv(E, L):
+        r, i = permmodel.is_perm_facts(L["index"])
+        return {"index_in_range": r, "index_injective": i}
+    loops = {0: _inv.__func__}
 
     def result(self, E, a, old):
-        n, k = a.X.shape[0], a.centers.shape[0]
+        for arr in (a.index, a.weights):
+            E.note_write(arr)
+            E._havoc_cell(arr, arr.cell.name)
+        return None
+
+    def ensures(self, E, a, res, old):
+        r, i = permmodel.is_perm_facts(a.index)
+        return {"returns_none": z3.BoolVal(res is None), "index_still_in_range": r, "index_still_injective": i}
+
+
+@contract(K + "::_switch_clusters", "C07")
+class Switch(Contract):
+    """exchanges the labels of two points: the number of points per cluster does not change"""
+
+    def setup(self, E, v):
+        n, k = E.size("n", 1), E.size("k", 1)
+        lab = E.nd("labels", (n,), "int")
+        return dict(labels=lab, distances=E.nd("distances", (n, k)))
+
+    def requires(self, E, a):
+        counting.track(E, a.labels)
+        return {"labels_are_clusters": _between(a.labels, 0, a.distances.shape[1]),
+                "one_row_of_distances_per_label": z3.And(z(a.distances.shape[0]) == z(a.labels.shape[0]), z(a.labels.shape[0]) >= 1)}
+
+    def old(self, E, a):
+        return dict(l0=a.labels.snapshot())
+
+    @staticmethod
+    def _inv(E, L):
+        lab, l0 = L["labels"], L.old("labels")
+        n = lab.shape[0]
+        return {"labels_are_clusters": _between(lab, 0, L["distances"].shape[1]),
+                "cluster_sizes_unchanged": _cnt_is(lab, n, lambda q: counting.cnt(l0, q, n))}
+    loops = {0: _inv.__func__, 1: _inv.__func__, 2: _inv.__func__}
+
+    def result(self, E, a, old):
+        E.note_write(a.labels)
+        E._havoc_cell(a.labels, "labels")
+        return None
+
+    def ensures(self, E, a, res, old):
+        n = a.labels.shape[0]
+        return {"returns_none": z3.BoolVal(res is None), "labels_are_clusters": _between(a.labels, 0, a.distances.shape[1]),
+                "cluster_sizes_unchanged": _cnt_is(a.labels, n, lambda q: counting.cnt(old["l0"], q, n))}
+
+
+def _b(c):
+    return z3.If(c, 1, 0)
+
+
+def _book(E, L):
+    """the bookkeeping invariant of the association (strategy 'distance'), over the live arrays"""
+    lab, cnts, lc = L["labels"], L["counters"], L["leftclose"]
+    n, k, lim = lab.shape[0], cnts.shape[0], z(L["limit"])
+    from pyvc.engine import Unbound
+    try:
+        nv = L["nover"]
+    except KeyError:
+        nv = None
+    if nv is None or isinstance(nv, Unbound):
+        # the number of extras still to give is loop-carried state of the loop over the points
+        return {"extras_left_plus_extras_given_is_leftover": z3.BoolVal(False)}
+    nover, leftover = z(nv), z(L["leftover"])
+    counting.quota_lemmas(E, cnts, lc, k, lim * z(k), lim)
+    counting.all_iff(E, lab, -1, n)
+    counting.all_iff(E, lc, 0, k)
+    return {
+        "labels_are_minus_one_or_a_cluster": _between(lab, -1, k),
+        "a_cluster_is_open_below_quota_or_closed_with_one_extra": _fa(k, lambda c: z3.And(
+            z3.Or(lc.get(c) == -1, lc.get(c) == 0), cnts.get(c) >= 0,
+            z3.Implies(lc.get(c) == 0, cnts.get(c) == lim + 1), z3.Implies(lc.get(c) == -1, cnts.get(c) <= lim)), "c"),
+        "counters_count_the_labels": z3.ForAll([(q := z3.Int(models.fresh_name("q")))], z3.Implies(
+            z3.And(q >= 0, q < z(k)), cnts.get(q) == counting.cnt(lab, q, n)), patterns=[counting.cnt(lab, q, n)]),
+        "assigned_points_are_counted_once": counting.sumI(cnts, k) == z(n) - counting.cnt(lab, -1, n),
+        "extras_left_plus_extras_given_is_leftover": z3.And(nover >= 0, nover + counting.cnt(lc, 0, k) == leftover),
+    }
+
+
+@contract(K + "::_constraint_association_distance", "C07")
+class Distance(Contract):
+    """PROVED: the association of strategies 'distance' / 'distance_p' gives every cluster floor(n/k) or floor(n/k)+1 points"""
+    variants = ["distance", "distance_p"]
+    max_paths = 20000
+    sequential = True
+
+    def setup(self, E, v):
+        n, k, d = E.size("n", 1), E.size("k", 1), E.size("d", 1)
+        return dict(leftover=E.int("leftover"), counters=E.nd("counters", (k,), "int"), labels=E.nd("labels", (n,), "int"),
+                    leftclose=E.nd("leftclose", (k,), "int"), distances_close=E.nd("distances_close", (n,)), centers=E.nd("centers", (k, d)),
+                    X=E.nd("X", (n, d)), x_squared_norms=E.nd("xsn", (n,)), limit=E.int("limit"), strategy=v, state=None)
+
+    def requires(self, E, a):
+        counting.track(E, a.labels)
+        counting.track(E, a.counters, want_sum=True)
+        counting.track(E, a.leftclose)
+        return _quota(a)
+
+    def old(self, E, a):
+        return dict(w=a.X.cell.writes, wc=a.centers.cell.writes)
+
+    # loop 0: while labels.min() == -1  - runs exactly once: untouched state, or the finished association
+    @staticmethod
+    def _while(E, L):
+        lab, cnts, lc = L["labels"], L["counters"], L["leftclose"]
+        n, k, lim = lab.shape[0], cnts.shape[0], z(L["limit"])
+        init = z3.And(_fa(n, lambda p: lab.get(p) == -1), _cnt_is(lab, n, lambda q: z3.If(q == -1, z(n), 0)),
+                      _fa(k, lambda c: z3.And(cnts.get(c) == 0, lc.get(c) == -1), "c"), counting.sumI(cnts, k) == 0,
+                      _cnt_is(lc, k, lambda q: z3.If(q == -1, z(k), 0)))
+        done = z3.And(_between(lab, 0, k), _sizes(lab, n, k, lim))
+        return {"nothing_assigned_yet_or_association_complete": z3.Or(init, done)}
+
+    # loop 1: for ind in sorted_index
+    @staticmethod
+    def _points(E, L):
+        out = _book(E, L)
+        if len(out) == 1:
+            return out
+        si, lab = L["sorted_index"], L["labels"]
+        pos = permmodel.inj_surj(E, si)        # ghost inverse of the visiting order (finite pigeonhole lemma)
+        out["points_already_visited_are_assigned"] = _fa(lab.shape[0], lambda p: z3.Implies(pos(p) < z(L.k), lab.get(p) >= 0))
+        n, k = lab.shape[0], L["counters"].shape[0]
+        at_end = z(L.k) >= z(n)
+        out["after_the_last_point_every_point_is_assigned"] = z3.Implies(at_end, _between(lab, 0, k))
+        out["after_the_last_point_no_label_is_minus_one"] = z3.Implies(at_end, counting.cnt(lab, -1, n) == 0)
+        out["after_the_last_point_all_extras_are_given"] = z3.Implies(at_end, z3.And(z(L["nover"]) == 0, _fa(k, lambda c: L["counters"].get(c) == z(L["limit"]) + _b(L["leftclose"].get(c) == 0), "c")))
+        out["after_the_last_point_the_sizes_are_balanced"] = z3.Implies(at_end, _sizes(lab, n, k, L["limit"]))
+        return out
+
+    # loop 2: for c in centers_index[ind, :]  - nothing is written before the break; every centre seen so far is full
+    @staticmethod
+    def _centres(E, L):
+        out = {"nothing_written_before_the_break": z3.And(*[L[nm].cell.term == L.old(nm).cell.term for nm in ("labels", "counters", "leftclose", "distances")],
+                                                         z(L["nover"]) == z(L.old("nover")))}
+        ci, cnts, lc, ind = L["centers_index"], L["counters"], L["leftclose"], L["ind"]
+        lim, nover = z(L["limit"]), z(L["nover"])
+        out["centres_seen_so_far_are_full"] = _fa(L.k, lambda j: z3.And(
+            cnts.get(ci.get(ind, j)) >= lim, z3.Not(z3.And(nover > 0, lc.get(ci.get(ind, j)) == -1))), "j")
+        # the same fact per centre, through the inverse of the row permutation (ghost of the argsort model)
+        out["centres_ranked_before_this_one_are_full"] = _fa(cnts.shape[0], lambda c: z3.Implies(ci.rowpos(z(ind), c) < z(L.k), z3.And(
+            cnts.get(c) >= lim, z3.Not(z3.And(nover > 0, lc.get(c) == -1)))), "c")
+        return out
+    loops = {0: _while.__func__, 1: _points.__func__, 2: _centres.__func__}
+
+    def result(self, E, a, old):
         for arr in (a.labels, a.counters, a.leftclose, a.distances_close):
             E.note_write(arr)
-            arr.cell.term = z3.Const(models.fresh_name(arr.cell.name), arr.cell.term.sort())
-        i = z3.Int(models.fresh_name("i"))
-        E.assume(z3.ForAll([i], z3.Implies(z3.And(i >= 0, i < z(n)), z3.And(a.labels.get(i) >= 0, a.labels.get(i) < z(k)))))
+            E._havoc_cell(arr, arr.cell.name)
         E.trace.append(dict(op="_constraint_association", labels=a.labels, strategy=a.strategy, limit=a.limit, leftover=a.leftover, X=a.X, centers=a.centers))
-        return NdArr.fresh("distances", (n, k), "real")
+        return NdArr.fresh("distances", (a.X.shape[0], a.centers.shape[0]), "real")
+
+    def ensures(self, E, a, res, old):
+        n, k = a.X.shape[0], a.centers.shape[0]
+        return {"every_point_gets_a_cluster": _between(a.labels, 0, k),
+                "every_cluster_has_floor_or_ceil_of_n_over_k_points": _sizes(a.labels, n, k, a.limit),
+                "returns_the_point_by_centre_distances": z3.BoolVal(isinstance(res, NdArr) and res.ndim == 2) if not (isinstance(res, NdArr) and res.ndim == 2)
+                else z3.And(z(res.shape[0]) == z(n), z(res.shape[1]) == z(k)),
+                "data_and_centres_not_written": z3.BoolVal(a.X.cell.writes == old["w"] and a.centers.cell.writes == old["wc"])}
+
+
+@contract(K + "::_constraint_association_gain", "C07", assumed=True)
+class Gain(Contract):
+    """ASSUMED: the association of strategies 'gain' / 'gain_p' assigns every point to one of the k clusters; nothing is assumed about
+    the sizes (KNOWN FINDING sizes-gain-n-mod-k-ge-2: they are not balanced when n mod k >= 2)"""
+
+    def requires(self, E, a):
+        return _quota(a)
+
+    def result(self, E, a, old):
+        for arr in (a.labels, a.counters, a.leftclose, a.distances_close):
+            E.note_write(arr)
+            E._havoc_cell(arr, arr.cell.name)
+        E.assume(_between(a.labels, 0, a.centers.shape[0]))
+        E.trace.append(dict(op="_constraint_association", labels=a.labels, strategy=a.strategy, limit=a.limit, leftover=a.leftover, X=a.X, centers=a.centers))
+        return NdArr.fresh("distances", (a.X.shape[0], a.centers.shape[0]), "real")
+
+
+@contract(K + "::_constraint_association", "C07")
+class Association(Contract):
+    """the dispatcher: 'distance*' goes to the proved association, 'gain*' to the assumed one, anything else raises"""
+    variants = ["distance", "distance_p", "gain", "gain_p", "weights"]
+    setup = Distance.setup
+    inline_at_calls = True
+
+    def requires(self, E, a):
+        return _quota(a)
+
+    def old(self, E, a):
+        return dict(tl=len(E.trace))
+
+    def ensures(self, E, a, res, old):
+        n, k = a.X.shape[0], a.centers.shape[0]
+        calls = [t for t in E.trace[old["tl"]:] if t["op"] == "_constraint_association"]
+        out = {"one_association_with_the_callers_strategy_and_quota": z3.BoolVal(
+            len(calls) == 1 and calls[0]["strategy"] == a.strategy and calls[0]["labels"] is a.labels and calls[0]["limit"] is a.limit
+            and calls[0]["leftover"] is a.leftover and calls[0]["X"] is a.X and calls[0]["centers"] is a.centers),
+            "every_point_gets_a_cluster": _between(a.labels, 0, k)}
+        if a.strategy in ("distance", "distance_p"):
+            out["every_cluster_has_floor_or_ceil_of_n_over_k_points"] = _sizes(a.labels, n, k, a.limit)
+        return out
+
+    def signals(self, E, a, exc, old):
+        if exc == "ValueError":
+            return {"only_an_unknown_strategy_raises": z3.BoolVal(a.strategy not in ("distance", "distance_p", "gain", "gain_p"))}
+        return None
 
 
 for _name in ("_centers_dense", "_centers_sparse"):
@@ -74,6 +318,8 @@ class Predictions(Contract):
                 z3.BoolVal(labels is calls[0]["labels"] and calls[0]["X"] is a.X and calls[0]["centers"] is a.centers and calls[0]["strategy"] == a.strategy),
                 z(labels.shape[0]) == z(a.X.shape[0]))
             out["batch_not_written"] = z3.BoolVal(a.X.cell.writes == old["w"])
+            if a.strategy == "distance_p":
+                out.update(_balanced(labels, a.X.shape[0], a.centers.shape[0], calls[0]["limit"]))
         return out
 
 
@@ -94,10 +340,19 @@ class Driver(Contract):
 
     def requires(self, E, a):
         # what ConstraintKMeans.fit establishes: the initial k-means used at most half of the budget
-        return {"n>=k": z(a.X.shape[0]) >= z(a.centers.shape[0]), "budget_left": z3.And(z(a.iter) >= 0, z(a.iter) < z(a.max_iter))}
+        return {"n>=k": z(a.X.shape[0]) >= z(a.centers.shape[0]), "budget_left": z3.And(z(a.iter) >= 0, z(a.iter) < z(a.max_iter)),
+                "labels_are_int32_one_per_point": z3.And(z3.BoolVal(getattr(a.labels.cell, "dtype_name", None) == "int32"), z(a.labels.shape[0]) == z(a.X.shape[0])),
+                "centres_have_the_data_dimension": z(a.centers.shape[1]) == z(a.X.shape[1])}
 
     def old(self, E, a):
         return dict(tl=len(E.trace), w=a.X.cell.writes)
+
+    def result(self, E, a, old):
+        # at a call site: fresh results; the quota the associations were given is a ghost of the summary (constrained by ensures)
+        n, k = a.X.shape[0], a.centers.shape[0]
+        lab = NdArr.fresh("best_labels", (n,), "int")
+        E.trace.append(dict(op="_constraint_association", labels=lab, strategy=a.strategy, limit=E.int("limit"), leftover=None, X=a.X, centers=a.centers))
+        return (lab, NdArr.fresh("best_centers", (k, a.centers.shape[1]), "real"), E.real("best_inertia"), None, E.int("iter"), [])
 
     @staticmethod
     def _inv(E, L):
@@ -115,6 +370,11 @@ class Driver(Contract):
             ok = isinstance(bl, NdArr)
             out["best_labels_one_per_point"] = z(bl.shape[0]) == z(L["X"].shape[0]) if ok else z3.BoolVal(False)
             out["best_iteration_is_a_past_iteration"] = z3.And(z(bi) >= 1, z(bi) <= z(L["iter"]))
+        if L["strategy"] == "distance":
+            n, k = L["X"].shape[0], L["n_clusters"]
+            out["live_labels_are_balanced"] = z3.And(_between(L["labels"], 0, k), _sizes(L["labels"], n, k, L["limit"]))
+            if bi is not None and ok:
+                out["best_labels_are_balanced"] = z3.And(_between(bl, 0, k), _sizes(bl, n, k, L["limit"]))
         return out
     loops = {0: _inv.__func__}
     loop_ignore = {0: ["all_centers"]}      # only appended to under history=True (False in every variant)
@@ -129,9 +389,15 @@ class Driver(Contract):
             out["training_data_not_written"] = z3.BoolVal(a.X.cell.writes == old["w"])
             calls = [t for t in E.trace[old["tl"]:] if t["op"] == "_constraint_association"]
             out["every_association_uses_the_callers_strategy"] = z3.BoolVal(all(t["strategy"] == a.strategy for t in calls) and len(calls) >= 1)
+            if a.strategy == "distance" and isinstance(labels, NdArr) and calls:
+                out.update(_balanced(labels, a.X.shape[0], a.centers.shape[0], calls[0]["limit"]))
         return out
 
 
+Distance.canaries = {"every_cluster_has_exactly_the_quota": lambda E, a, res, old: z3.ForAll(
+    [(q := z3.Int("q!can"))], z3.Implies(z3.And(q >= 0, q < z(a.centers.shape[0])), counting.cnt(a.labels, q, a.X.shape[0]) == z(a.limit)))}
+Switch.canaries = {"labels_never_change": lambda E, a, res, old: a.labels.cell.term == old["l0"].cell.term}
+Randomize.canaries = {"index_never_changes": lambda E, a, res, old: z3.BoolVal(a.index.cell.writes == 0)}
 Driver.canaries = {"stops_strictly_before_max_iter": lambda E, a, res, old: z(res[4]) < z(a.max_iter)}
 
 
@@ -166,17 +432,66 @@ class Predict(Contract):
         assoc = [t for t in tr if t["op"] == "_constraint_association"]
         near = [t for t in tr if t["op"] == "KMeans.predict"]
         if a._v[0]:
-            return {"balanced_predictions_come_from_the_balanced_association_of_the_batch": z3.BoolVal(
+            out = {"balanced_predictions_come_from_the_balanced_association_of_the_batch": z3.BoolVal(
                 len(assoc) == 1 and not near and res is assoc[0]["labels"] and assoc[0]["strategy"] == "distance_p"
                 and assoc[0]["centers"] is a.self.fields["cluster_centers_"] and assoc[0]["X"] is a.X)}
+            if len(assoc) == 1 and isinstance(res, NdArr):
+                out.update(_balanced(res, a.X.shape[0], a.self.fields["n_clusters"], assoc[0]["limit"]))
+            return out
         return {"without_balanced_predictions_the_nearest_centre": z3.BoolVal(len(near) == 1 and not assoc and res is near[0]["result"] and near[0]["X"] is a.X)}
 
 
+@contract(C + "::ConstraintKMeans.fit", "C07")
+class Fit(Contract):
+    """fit with strategy 'distance': labels_ are balanced, n_iter_ <= max_iter"""
+    variants = [(k0, hw) for k0 in (True, False) for hw in (False, True)]
+    loops = {0: lambda E, L: {"centers_shape": z(L["centers"].shape[0]) == z(L["self"].fields["n_clusters"])}}
+
+    def setup(self, E, v):
+        kmeans0, has_w = v
+        s = _ckm(E, False)
+        s.fields["kmeans0"] = kmeans0
+        s.fields["random_state"] = E.int("seed")
+        for f in ("cluster_centers_", "weights_"):
+            s.fields.pop(f, None)
+        n = E.size("n", 1)
+        return dict(self=s, X=E.nd("X", (n, E.size("d", 1))), y=None, sample_weight=E.nd("w", (n,)) if has_w else None)
+
+    def requires(self, E, a):
+        return {"n>=k": z(a.X.shape[0]) >= z(a.self.fields["n_clusters"])}
+
+    def old(self, E, a):
+        return dict(max_iter=a.self.fields["max_iter"], w=a.X.cell.writes)
+
+    def ensures(self, E, a, res, old):
+        s = a.self
+        lab = s.fields.get("labels_")
+        out = {"fit_returns_self": z3.BoolVal(res is s), "labels_is_an_array": z3.BoolVal(isinstance(lab, NdArr))}
+        if isinstance(lab, NdArr):
+            calls = [t for t in E.trace if t["op"] == "_constraint_association"]
+            out["one_label_per_training_point"] = z(lab.shape[0]) == z(a.X.shape[0])
+            if calls:
+                out.update(_balanced(lab, a.X.shape[0], s.fields["n_clusters"], calls[-1]["limit"]))
+            else:
+                out["labels_come_from_the_association"] = z3.BoolVal(False)
+        out["max_iter_restored"] = z(s.fields["max_iter"]) == z(old["max_iter"])
+        out["n_iter_does_not_exceed_max_iter"] = z3.And(z(s.fields["n_iter_"]) >= 0, z(s.fields["n_iter_"]) <= z(old["max_iter"]))
+        out["training_data_not_written"] = z3.BoolVal(a.X.cell.writes == old["w"])
+        return out
+
+
 META = dict(
-    level="proof", assumptions=["A1", "A2", "A3", "A6", "A7", "A9"],
-    trusted=["ASSUMED: _constraint_association (strategies distance and gain) assigns every point to one of the k clusters given a quota; its size "
-             "postcondition (every cluster has floor(n/k) or ceil(n/k) points) is NOT proved: bounded stand-in, with a known finding for 'gain'",
-             "KMeans.predict returns the nearest centre; _centers_dense/_sparse and _labels_inertia_skl are opaque"],
-    not_applicable=["the size constraint itself (counting invariants over three nested loops with randomised order and swaps): bounded stand-in over all "
-                    "k <= n <= 14; centres finite (floating point)"],
+    level="proof", assumptions=["A1", "A2", "A3", "A6", "A7", "A9"], lean_files=["lemmas/Counting.lean"],
+    trusted=["ASSUMED: _constraint_association_gain (strategies gain / gain_p) assigns every point to one of the k clusters; NOTHING is assumed or proved "
+             "about its sizes (known finding sizes-gain-n-mod-k-ge-2: not balanced when n mod k >= 2) - bounded stand-in",
+             "ASSUMED numpy/scikit-learn models (pyvc/permmodel.py): argsort returns a permutation of the positions along the axis (with its inverse as a "
+             "ghost function), min/max return an attained bound, random.rand in [0,1), random.permutation a bijection, euclidean_distances a "
+             "non-negative (rows x rows) matrix, paired integer indexing a[i_, j_]; KMeans.fit returns int32 labels in [0,k), n_iter_ <= max_iter; "
+             "KMeans.predict returns the nearest centre; _centers_dense/_sparse and _labels_inertia_skl are opaque",
+             "lemma schemas of the ghost counting functions cnt / sumI (pyvc/counting.py LEMMAS: store, constant, range, all/none, quota "
+             "pigeonhole in three forms, injective => surjective on [0,n)) are instantiated per event; the schemas themselves are proved in "
+             "lemmas/Counting.lean (Lean 4 + Mathlib, run by this check); the correspondence z3 instance <-> Lean statement is by inspection",
+             "integers are mathematical (int32 counters do not overflow for n < 2^31)"],
+    not_applicable=["sizes under strategy 'gain' (genuinely violated: known finding); centres finite (floating point); termination of the "
+                    "association loops (partial correctness only: the while loop is proved to run at most once)"],
 )
